@@ -97,6 +97,13 @@ func genC19(r *vh.Runner) {
 	for h := 0; h < pd; h++ {
 		r.Case(fmt.Sprintf("hidden-post-dated/%d", h), map[string]any{"rep": h}, func(c *vh.Case) { hiddenPostDated(r, c, h) })
 	}
+	// (f) cookies of another server instance
+	nx := r.Pick(4, 400)
+	for h := 0; h < nx; h++ {
+		r.Case(fmt.Sprintf("cookie-across-servers/%d", h), map[string]any{"rep": h}, func(c *vh.Case) {
+			c.Bubble(func() { cookieAcrossServers(r, c, h) })
+		})
+	}
 	// (e) hidden requests with chosen timestamps
 	nts := r.Pick(4, 1000)
 	for h := 0; h < nts; h++ {
@@ -163,6 +170,51 @@ func hiddenPostDated(r *vh.Runner, c *vh.Case, rep int) {
 			c.Violate("C19:hidden-server-answers:post-dated-request", map[string]any{"timestamp_ahead_of_server_s": ahead.Seconds(), "datagrams_emitted": n})
 		}
 	})
+}
+
+// callbackConfig turns a static server configuration into one that hands out
+// its certificate through the GetCertificate / GetCertList callbacks (the way
+// hopserver configures the transport).
+func callbackConfig(sc *transport.ServerConfig) {
+	tc := &transport.Certificate{RawLeaf: fix.Raw(sc.Certificate), RawIntermediate: fix.Raw(sc.Intermediate), Exchanger: sc.KeyPair, KEMKeyPair: sc.KEMKeyPair, Leaf: sc.Certificate}
+	sc.GetCertificate = func(transport.ClientHandshakeInfo) (*transport.Certificate, error) { return tc, nil }
+	sc.GetCertList = func() ([]*transport.Certificate, error) { return []*transport.Certificate{tc}, nil }
+	sc.Certificate, sc.Intermediate, sc.KeyPair, sc.KEMKeyPair = nil, nil, nil, nil
+}
+
+// cookieAcrossServers: a cookie minted by one server instance means nothing to
+// another instance (each has its own cookie key), whatever way the servers
+// were configured, also right after start-up.
+func cookieAcrossServers(r *vh.Runner, c *vh.Case, rep int) {
+	tweak := func(sc *transport.ServerConfig) {}
+	how := "static-config"
+	if rep%2 == 0 {
+		tweak, how = callbackConfig, "callback-config"
+	}
+	w1, id := newLoggedWorld(tweak)
+	hold := func(mt byte) bool { return mt == 0x03 }
+	m, addr, cl := captureFlow(w1, id, false, nil, hold)
+	cl.Close()
+	w1.Server.Close()
+	ack := m[0x03]
+	if ack == nil {
+		c.Inconclusive("could not capture a client ack")
+		return
+	}
+	w2, _ := newLoggedWorld(tweak)
+	defer w2.Server.Close()
+	h0, s0 := w2.Server.VerifTableSizes()
+	mark := w2.Net.LogLen()
+	w2.Net.Inject(simnet.Delivery{Data: ack, Src: addr, Dst: w2.SrvAddr, Tag: "ack:minted-by-another-server-instance"})
+	bub.Settle(50 * time.Millisecond)
+	h1, s1 := w2.Server.VerifTableSizes()
+	tx := serverTx(w2, mark)
+	r.Count("evaluations", 1)
+	r.Count("client_acks_delivered:minted-by-another-server-instance:"+how, 1)
+	r.Nontrivial(fmt.Sprintf("ack-across|%d", rep))
+	if len(tx) > 0 || h1 > h0 || s1 > s0 {
+		c.Violate("C19:client-ack-accepted:cookie-minted-by-another-server-instance:"+how, map[string]any{"datagrams_emitted": len(tx), "tables_before": []int{h0, s0}, "tables_after": []int{h1, s1}})
+	}
 }
 
 // hiddenTimestamps: real clients build otherwise perfectly valid hidden
@@ -336,6 +388,18 @@ func cookieBinding(r *vh.Runner, c *vh.Case, rep int) {
 	copy(withCookieOfB[ackCookieOff:ackCookieEnd], ackB[ackCookieOff:ackCookieEnd])
 	withKeyOfB := append([]byte(nil), ackA...)
 	copy(withKeyOfB[ackKemOff:ackCookieOff], ackB[ackKemOff:ackCookieOff])
+	// parts of the client's KEM key exchanged or flipped: every byte of it is bound
+	keyTail := append([]byte(nil), ackA...)
+	copy(keyTail[ackCookieOff-32:ackCookieOff], ackB[ackCookieOff-32:ackCookieOff])
+	keyHead := append([]byte(nil), ackA...)
+	copy(keyHead[ackKemOff:ackKemOff+32], ackB[ackKemOff:ackKemOff+32])
+	keyFlip := append([]byte(nil), ackA...)
+	keyFlip[ackKemOff+[]int{0, 1, 400, 767, 768, 769, 798, 799, rng.Intn(transport.KemKeyLen)}[rng.Intn(9)]] ^= byte(1 << uint(rng.Intn(8)))
+	dhFlip := append([]byte(nil), ackA...)
+	dhFlip[transport.HeaderLen+rng.Intn(transport.DHLen)] ^= byte(1 << uint(rng.Intn(8)))
+	// ports that agree in their low byte, or in their high byte
+	port256 := &net.UDPAddr{IP: addrA.IP, Port: (addrA.Port+256*(1+rng.Intn(100))-1)%65535 + 1}
+	portLow := &net.UDPAddr{IP: addrA.IP, Port: addrA.Port ^ (1 + rng.Intn(255))}
 	flipCookie := append([]byte(nil), ackA...)
 	flipCookie[ackCookieOff+rng.Intn(transport.PQCookieLen)] ^= byte(1 << uint(rng.Intn(8)))
 
@@ -351,6 +415,12 @@ func cookieBinding(r *vh.Runner, c *vh.Case, rep int) {
 		{"other-port", ackA, otherPort, 0, false},
 		{"cookie-of-other-client", withCookieOfB, addrA, 0, false},
 		{"client-key-of-other-client", withKeyOfB, addrA, 0, false},
+		{"client-key-last-32-bytes-of-other-client", keyTail, addrA, 0, false},
+		{"client-key-first-32-bytes-of-other-client", keyHead, addrA, 0, false},
+		{"client-key-bit-flipped", keyFlip, addrA, 0, false},
+		{"client-dh-key-bit-flipped", dhFlip, addrA, 0, false},
+		{"other-port-same-low-byte", ackA, port256, 0, false},
+		{"other-port-same-high-byte", ackA, portLow, 0, false},
 		{"cookie-bit-flipped", flipCookie, addrA, 0, false},
 		{"control-unmodified", ackA, addrA, 0, true},
 	}
